@@ -21,8 +21,10 @@ def make_case(rng, thorough=False):
     bound = {}
     for x in list(spec.required) + list(spec.optional):
         if rng.random() < 0.2:
-            bound[x] = rng.randint(20, 29)
+            # falsy bindings too (None, 0): a binding counts by its presence, not by its value
+            bound[x] = (0 if x in g.get("int_valued", []) else rng.choice([None, 0])) if rng.random() < 0.35 else rng.randint(20, 29)
     g["bound"] = bound
+    gen.via_renames(rng, g, 0.25)
     required = [x for x in spec.required if x not in bound]
     optional = [x for x in list(spec.optional) + list(bound)]
     inputs = gen.complete_inputs(rng, g, required, optional, provide_optional=0.45)
@@ -44,8 +46,14 @@ def corpus():
         {"name": "describe", "kind": "func", "inputs": ["hit"], "outputs": ["label"], "emit": [], "wait_for": [], "defaults": {"hit": 5}, "fn": ["sym", "describe"]},
         {"name": "tag", "kind": "func", "inputs": ["hit", "prefix"], "outputs": ["tagged"], "emit": [], "wait_for": [], "defaults": {"hit": 5, "prefix": 6}, "fn": ["sym", "tag"]}],
         "bound": {"prefix": 9}, "entrypoints": None, "selected": None}
+    # a binding counts by its presence, not by its value: bind(stopwords=None) is the only source of `stopwords`
+    g3 = {"nodes": [
+        {"name": "tokenize", "kind": "func", "inputs": ["text"], "outputs": ["tokens"], "emit": [], "wait_for": [], "defaults": {}, "fn": ["sym", "tokenize"]},
+        {"name": "drop", "kind": "func", "inputs": ["tokens", "stopwords"], "outputs": ["kept"], "emit": [], "wait_for": [], "defaults": {}, "fn": ["sym", "drop"]},
+        {"name": "count", "kind": "func", "inputs": ["kept"], "outputs": ["n"], "emit": [], "wait_for": [], "defaults": {}, "fn": ["sym", "count"]}],
+        "bound": {"stopwords": None}, "entrypoints": None, "selected": None}
     out = []
-    for g, inputs in ((g1, {"seed": 1}), (g2, {"key": 3})):
+    for g, inputs in ((g1, {"seed": 1}), (g2, {"key": 3}), (g3, {"text": 2})):
         for runner in ("sync", "async"):
             out.append((copy.deepcopy(g), {"runner": runner, "inputs": inputs, "error_handling": "continue"}))
     return out
@@ -56,7 +64,7 @@ def run(ctx):
     batch = CoqBatch("C01", engine.IMPORTS, shard=160)
     n_cases = ctx.n(700, 6000)
     cases = corpus()
-    while len(cases) < n_cases + 4:
+    while len(cases) < n_cases + 6:
         cases.append(make_case(ctx.rng, not ctx.quick()))
     seen, nontrivial = set(), set()
     dist = {"nodes": {}, "runner": {"sync": 0, "async": 0}, "edge_fed_defaults": 0, "bound": 0, "unsatisfiable_nodes": 0}
